@@ -61,9 +61,7 @@ impl ClaimTopicsAndIssuersClient {
 }
 
 /// soroban_sdk::ConversionError / soroban_sdk::Error / soroban_sdk::InvokeError (only their shapes matter)
-pub struct ConversionError;
-pub struct SdkError { pub code: u32 }
-pub enum InvokeError { Abort, Contract(u32) }
+// (`ConversionError` is in model/core.rs, `SdkError` / `InvokeError` in model/xcall.rs)
 
 pub struct ClaimIssuerClient { pub address: Address }
 impl ClaimIssuerClient {
